@@ -81,7 +81,7 @@ class RowanMod(roundtrip.RTMod):
         if raw0 is not None and raw0[0] == "abs" and raw0[1] == "siter":
             items = raw0[2][raw0[3]:]
             m = c.rsplit("::", 1)[-1]
-            if c.startswith("core::iter::traits::iterator::Iterator::") and m in ("filter_map", "filter", "find", "find_map", "any", "all", "position", "skip_while", "take_while", "count", "last", "nth", "enumerate"):
+            if "Iterator" in c and m in ("filter_map", "filter", "find", "find_map", "any", "all", "position", "skip_while", "take_while", "count", "last", "nth", "enumerate"):
                 return self.adapter(I, st, m, items, args, n)
         return super().intrinsic(I, c, args, st, n)
 
